@@ -124,6 +124,7 @@ type Exec struct {
 	writtenTagged        map[interface{}]bool
 	lineScanners         map[*Loc]*lineScanner
 	rngCache             map[int]rng
+	decDigits            map[int]decDigit // per path: byte terms produced as decimal digits of a value (text.go)
 	varRng               map[int]rng
 	pathDeadline         time.Time
 	regexps              map[*Loc]*regexp.Regexp
